@@ -125,6 +125,41 @@ struct Family {
    }
 };
 
+// The same mapping asked during static initialisation, before any initialiser of the library's own translation units can have
+// run (a client's namespace-scope object that uses a Lexicon in its constructor; init_priority 101 is the earliest a program
+// may ask for).  Only plain arrays are filled here; the answers are compared in body() with those obtained inside main().
+struct EarlyProbe {
+   bool ran = false, threw = false;
+   std::uintptr_t spec[18] = { }, qual[3] = { };
+   bool spec_refused[18] = { }, qual_refused[3] = { }, spec_decomp_ok[18] = { }, qual_decomp_ok[3] = { };
+   std::uintptr_t all_specs = 0; std::size_t all_specs_decomposed = 0;
+   bool unknown_answered = false;
+   EarlyProbe()
+   {
+      try {
+         impl::Lexicon lex; const Lexicon& L = lex;
+         for (std::size_t i = 0; i < 18; ++i) {
+            try {
+               auto v = L.specifiers(Basic_specifier { lex.get_logogram(lex.get_string(basic_specifier_words[i])) });
+               spec[i] = std::uintptr_t(util::rep(v)); all_specs |= spec[i];
+               auto d = L.decompose(v); spec_decomp_ok[i] = d.size() == 1 && d[0].logogram().what().characters() == basic_specifier_words[i];
+            } catch (...) { spec_refused[i] = true; }
+         }
+         for (std::size_t i = 0; i < 3; ++i) {
+            try {
+               auto v = L.qualifiers(Basic_qualifier { lex.get_logogram(lex.get_string(basic_qualifier_words[i])) });
+               qual[i] = std::uintptr_t(util::rep(v));
+               auto d = L.decompose(v); qual_decomp_ok[i] = d.size() == 1 && d[0].logogram().what().characters() == basic_qualifier_words[i];
+            } catch (...) { qual_refused[i] = true; }
+         }
+         all_specs_decomposed = L.decompose(Specifiers(all_specs)).size();
+         try { (void)L.specifiers(Basic_specifier { lex.get_logogram(lex.get_string(u8"not_a_specifier")) }); unknown_answered = true; } catch (...) { }
+      } catch (...) { threw = true; }
+      ran = true;
+   }
+};
+__attribute__((init_priority(101))) static EarlyProbe early_probe;
+
 static void body(Ctx& C)
 {
    C.rule("a case = one subset of basic names (decomposition) or one pair of subsets (binary operations); exhaustive: all 2^18 "
@@ -162,6 +197,26 @@ static void body(Ctx& C)
       }
    };
    accessors(L, S, Q, "");
+   // what the early probe saw during static initialisation must be what main() sees
+   {
+      const EarlyProbe& E = early_probe;
+      C.count("questions_asked_during_static_initialisation", E.ran ? 18 + 3 + 2 : 0);
+      if (!E.ran || E.threw) C.viol("static-initialisation:lexicon-unusable", "a Lexicon built and asked during static initialisation (constructor of a namespace-scope object) raised an exception");
+      else {
+         for (std::size_t i = 0; i < 18; ++i) {
+            if (E.spec_refused[i]) C.viol("specifiers:basic-name-refused:during-static-initialisation", "a basic specifier name is refused when asked during static initialisation: " + narrow(basic_specifier_words[i]));
+            else if (E.spec[i] != std::uintptr_t(util::rep(S.single[i]))) C.viol("specifiers:mapping-differs:during-static-initialisation", "a basic specifier name maps to another set during static initialisation than inside main(): " + narrow(basic_specifier_words[i]));
+            else if (!E.spec_decomp_ok[i]) C.viol("specifiers:singleton-decomposition:during-static-initialisation", "decompose(S(w)) != [w] during static initialisation for " + narrow(basic_specifier_words[i]));
+         }
+         for (std::size_t i = 0; i < 3; ++i) {
+            if (E.qual_refused[i]) C.viol("qualifiers:basic-name-refused:during-static-initialisation", "a basic qualifier name is refused when asked during static initialisation: " + narrow(basic_qualifier_words[i]));
+            else if (E.qual[i] != std::uintptr_t(util::rep(Q.single[i]))) C.viol("qualifiers:mapping-differs:during-static-initialisation", "a basic qualifier name maps to another set during static initialisation than inside main(): " + narrow(basic_qualifier_words[i]));
+            else if (!E.qual_decomp_ok[i]) C.viol("qualifiers:singleton-decomposition:during-static-initialisation", "decompose(S(w)) != [w] during static initialisation for " + narrow(basic_qualifier_words[i]));
+         }
+         if (E.all_specs_decomposed != 18) C.viol("specifiers:decompose-size:during-static-initialisation", "the union of all 18 basic specifiers decomposes into " + std::to_string(E.all_specs_decomposed) + " names during static initialisation");
+         if (E.unknown_answered) C.viol("specifiers:unknown-name-answered:during-static-initialisation", "an unknown name was given a set during static initialisation");
+      }
+   }
    // The same questions once every other word-keyed factory of the Lexicon has been asked for the basic names (a calling
    // convention, a linkage, an identifier, an operator, a suffix or a label spelled like a specifier or qualifier), in a
    // Lexicon that mapped the names before (ours) and in one that is asked only afterwards: the mapping goes by the spelling,
@@ -235,7 +290,7 @@ static void body(Ctx& C)
    }
    C.sample(J().s("kind", "subset").u("mask", 0x2a5).raw("names", jarr(basic_specifier_words, basic_specifier_words + 18, [](std::u8string_view w) { return jstr(w); })).str());
    C.need("specifiers_subsets_decomposed"); C.need("qualifiers_subsets_decomposed"); C.need("specifiers_binary_pairs");
-   C.need("named_accessors_checked");
+   C.need("named_accessors_checked"); C.need("questions_asked_during_static_initialisation");
    if (C.worker == 0) { C.need("specifiers_unknown_names_refused"); C.need("qualifiers_unknown_names_refused"); }
    C.exhaustive(ok);   // the space named by the property: all subsets enumerated; pairs are sampled as the property states
    C.extra("exhaustive_subspaces", "\"decompose over all 2^18 + 2^3 subsets; binary operations over all 18 x 2^18 singleton-subset pairs and all 8 x 8 qualifier pairs; random pairs beyond that are sampled\"");
